@@ -217,6 +217,7 @@ PROPS["C01"] = {
     "quick": [H("ZZ_C01_Linearizable", params={"PRE": 0}, reach=["history-complete"], bounds="2x2 ops, cap 1, preemptions 0"),
               H("ZZ_C01_Linearizable", params={"PRE": 0, "POOL": 1}, reach=["history-complete"], bounds="entry pool on"),
               H("ZZ_C01_Linearizable", params={"PRE": 0, "POOL": 1, "PRELUDE": 1}, reach=["history-complete"], bounds="entry pool on and holding a recycled entry"),
+              H("ZZ_C02_PoolStaleUpdate", params={"PRE": 1, "POOL": 1}, reach=["drained"], bounds="entry pool on: same-key reuse guard (a delayed update event must not reach the new incarnation)"),
               H("ZZ_C01_Linearizable", params={"PRE": 0, "LOADING": 1}, reach=["history-complete"], bounds="loading cache"),
               H("ZZ_C01_Linearizable", params={"PRE": 0, "DOOR": 1}, reach=["history-complete"], bounds="doorkeeper on"),
               H("ZZ_C13_LoadingWithWriter", params={"PRE": 1}, reach=["both-finished"], bounds="loading Get vs Set/Delete of the same key: load-and-store atomic with respect to writers"),
@@ -235,15 +236,17 @@ PROPS["C02"] = {
     "title": "resident cost within MaxSize after drain; nothing untracked",
     "technique": "SSA symbolic execution with controlled threads of two-client programs on the real Store (symbolic costs), then Wait and accounting invariants decided by z3; sync/atomic operations as scheduling points for the expiry window",
     "level_text": "Bounded model checking: two clients x OPS operations (Set k1 / Set k2 with symbolic costs 1..MaxSize, Delete, Get) in every interleaving within the preemption bound; after Wait the harness asserts, for all cost values, resident cost = policy total = sum of region sizes <= MaxSize, every resident entry on exactly one region list with policy weight = weight and not flagged removed, and Len/EstimatedSize views. A second program places a TTL extension at every atomic step of the expiry path (no source hook needed: the executor schedules at sync/atomic operations).",
-    "level_note": _thr_note + "Entry pool off (as the property states). The in-flight bound on unaccounted entries is not asserted as a running monitor; the mechanism behind it (a writer waits on the full queue rather than skipping the accounting) is exercised with a one-slot queue, where a skipped event shows up as an untracked resident entry after the drain. Known finding: removed flag set before the deadline re-check (ZZ_C02_ExpiryWindow; every assertion of that program is attributed to it).",
+    "level_note": _thr_note + "Entry pool off (as the property states) except in ZZ_C02_PoolStaleUpdate. The in-flight bound on unaccounted entries is not asserted as a running monitor; the mechanism behind it (a writer waits on the full queue rather than skipping the accounting) is exercised with a one-slot queue, where a skipped event shows up as an untracked resident entry after the drain. Known finding: removed flag set before the deadline re-check (ZZ_C02_ExpiryWindow; every assertion of that program is attributed to it).",
     "assumptions": ["MaxSize 2, two keys"],
     "outside_bound": ["bound on unaccounted entries while writes are in flight", "more than 2 clients / 2 ops", "preemption bound above 1"],
     "quick": [H("ZZ_C02_Program", params={"PRE": 0}, reach=["drained"], bounds="2 clients x 2 ops, cap 2, preemptions 0, costs symbolic"),
               H("ZZ_C02_Program", params={"PRE": 0, "WQ": 1, "OPS": 1}, reach=["drained"], bounds="one op per client with a write queue of one slot: writers block on the full queue (a writer that skipped the accounting instead would leave an untracked entry)"),
               H("ZZ_C02_ExpiryWindow", params={"PRE": 1}, reach=["settled"], bounds="TTL extension vs expiry path at atomic granularity, preemptions 1"),
               H("ZZ_C04_LateUpdate", reach=["three-ticks"], bounds="cost and TTL update processed after the new deadline: accounting stays exact"),
-              H("ZZ_C02_TwoWriters", params={"PRE": 1}, reach=["drained"], bounds="two writers x 2 Sets of one key, symbolic costs, preemptions 1 (an update event may overtake the insert event)")],
-    "thorough": [H("ZZ_C02_Program", params={"PRE": 1}, reach=["drained"], bounds="2 clients x 2 ops, cap 2, preemptions 1"),
+              H("ZZ_C02_TwoWriters", params={"PRE": 1}, reach=["drained"], bounds="two writers x 2 Sets of one key, symbolic costs, preemptions 1 (an update event may overtake the insert event)"),
+              H("ZZ_C02_PoolStaleUpdate", params={"PRE": 1, "POOL": 1}, reach=["drained"], bounds="entry pool on: a delayed update event of a recycled entry, preemptions 1")],
+    "thorough": [H("ZZ_C02_PoolStaleUpdate", params={"PRE": 2, "POOL": 1, "POOLMODE": 2}, reach=["drained"], bounds="entry pool on, adversarial reuse, preemptions 2"),
+                 H("ZZ_C02_Program", params={"PRE": 1}, reach=["drained"], bounds="2 clients x 2 ops, cap 2, preemptions 1"),
                  H("ZZ_C02_Program", params={"PRE": 0, "WQ": 1}, reach=["drained"], bounds="2 clients x 2 ops, one-slot write queue"),
                  H("ZZ_C02_Program", params={"PRE": 0, "CAP": 3}, reach=["drained"]),
                  H("ZZ_C02_ExpiryWindow", params={"PRE": 2}, reach=["settled"])],
@@ -295,9 +298,11 @@ PROPS["C13"] = {
     "level_note": _thr_note + "2 callers (thorough 3), preemption bound 1; call-record pool LIFO (thorough: adversarial choice). Set/Delete interleaved with the load of the same key has its own program.",
     "assumptions": ["loader yields once (slow loader) and is otherwise atomic"],
     "outside_bound": ["more than 3 callers", "nested loads"],
-    "quick": [H("ZZ_C13_Group", params={"CALLERS": 2, "PRE": 1}, reach=["all-callers-finished"]), H("ZZ_C13_Loading", params={"CALLERS": 2, "PRE": 1}, reach=["all-callers-finished"]),
+    "quick": [H("ZZ_C13_Group", params={"CALLERS": 2, "PRE": 1}, reach=["all-callers-finished"]),
+              H("ZZ_C13_Group", params={"CALLERS": 2, "PRE": 1, "OTHER": 1}, reach=["all-callers-finished"], bounds="plus a caller of another key sharing the record pool, happens-before monitor on"),
+              H("ZZ_C13_Loading", params={"CALLERS": 2, "PRE": 1}, reach=["all-callers-finished"]),
               H("ZZ_C13_LoadingWithWriter", params={"PRE": 1}, reach=["both-finished"], bounds="one loading Get and one Set/Delete of the same key, loader ok/failing, preemptions 1")],
-    "thorough": [H("ZZ_C13_Group", params={"CALLERS": 3, "PRE": 1, "POOLMODE": 2}, reach=["all-callers-finished"]), H("ZZ_C13_Group", params={"CALLERS": 2, "PRE": 2}, reach=["all-callers-finished"]),
+    "thorough": [H("ZZ_C13_Group", params={"CALLERS": 3, "PRE": 1, "POOLMODE": 2}, reach=["all-callers-finished"]), H("ZZ_C13_Group", params={"CALLERS": 2, "PRE": 1, "OTHER": 1, "POOLMODE": 2}, reach=["all-callers-finished"]), H("ZZ_C13_Group", params={"CALLERS": 2, "PRE": 2}, reach=["all-callers-finished"]),
                  H("ZZ_C13_Loading", params={"CALLERS": 3, "PRE": 1}, reach=["all-callers-finished"]),
                  H("ZZ_C13_LoadingWithWriter", params={"PRE": 2}, reach=["both-finished"])],
 }
@@ -327,10 +332,13 @@ PROPS["C11"] = {
     "quick": [H("ZZ_C11_RoundTrip", reach=["loaded"], bounds="4 entries, cap 10, same size, advance <= 2^31 ns symbolic"),
               H("ZZ_C11_RoundTrip", params={"COSTS": 1}, reach=["loaded"], bounds="symbolic costs 1..3"),
               H("ZZ_C11_RoundTrip", params={"CAP2": 2}, reach=["loaded"], bounds="smaller target (unit costs)"),
+              H("ZZ_C11_RoundTrip", params={"N": 6, "CAP2": 4}, reach=["loaded"], bounds="6 entries, smaller target keeps part of a region (unit costs)"),
               H("ZZ_C11_RoundTrip", params={"COSTS": 1, "CAP2": 4}, reach=["loaded"], bounds="smaller target, symbolic costs")],
     "thorough": [H("ZZ_C11_RoundTrip", reach=["loaded"]), H("ZZ_C11_RoundTrip", params={"COSTS": 1}, reach=["loaded"]),
                  H("ZZ_C11_RoundTrip", params={"SPLIT": 1}, reach=["loaded"], bounds="block splits at arbitrary points"),
                  H("ZZ_C11_RoundTrip", params={"CAP2": 2}, reach=["loaded"]), H("ZZ_C11_RoundTrip", params={"COSTS": 1, "CAP2": 4}, reach=["loaded"]),
+                 H("ZZ_C11_RoundTrip", params={"N": 6, "CAP2": 4}, reach=["loaded"], bounds="6 entries, smaller target keeps part of a region"),
+                 H("ZZ_C11_RoundTrip", params={"N": 8, "CAP": 20, "CAP2": 5}, reach=["loaded"], bounds="8 entries, smaller target"),
                  H("ZZ_C11_RoundTrip", params={"N": 6, "CAP": 4, "CAP2": 4}, reach=["loaded"], bounds="source cache under eviction pressure")],
 }
 
@@ -376,9 +384,14 @@ PROPS["C15"] = {
     "outside_bound": ["more than 3 writes", "more than one worker"],
     "quick": [H("ZZ_C15_Demotion", reach=["filled"]), H("ZZ_C15_Demotion", params={"FAIL": 1}, reach=["filled"], bounds="every failure pattern of 2 demotions"),
               H("ZZ_C15_LoaderDemotion", reach=["loaded-two"]),
+              H("ZZ_C15_ReloadAfterSecondaryExpiry", reach=["reloaded"], bounds="loader entry reloaded after its secondary copy expired (advance 2^29..2^31 ns symbolic), then evicted again"),
+              H("ZZ_C15_PoolRecycled", params={"POOL": 1}, reach=["recycling"], bounds="entry pool on: the object of a clean promoted entry is recycled for another key, which must still be demoted"),
               H("ZZ_C14_StalePromoted", reach=["evicted-again"], bounds="demote, promote, overwrite, evict again: the overwritten value must reach the secondary tier")],
     "thorough": [H("ZZ_C14_StalePromoted", reach=["evicted-again"]), H("ZZ_C15_Demotion", params={"N": 4}, reach=["filled"]), H("ZZ_C15_Demotion", params={"FAIL": 1, "N": 4}, reach=["filled"]),
-                 H("ZZ_C15_LoaderDemotion", reach=["loaded-two"])],
+                 H("ZZ_C15_LoaderDemotion", reach=["loaded-two"]),
+                 H("ZZ_C15_ReloadAfterSecondaryExpiry", reach=["reloaded"]),
+                 H("ZZ_C15_PoolRecycled", params={"POOL": 1}, reach=["recycling"]),
+                 H("ZZ_C15_PoolRecycled", params={"POOL": 1, "POOLMODE": 2}, reach=["recycling"], bounds="adversarial choice among pooled objects")],
 }
 
 PROPS["C18"] = {
